@@ -3,6 +3,7 @@ Helper lemmas for C05, part 2: soundness of the value check (`checkValue S v ty 
 `checkArguments`, with the counting arguments they need.
 -/
 import NitroVerif.Lemmas.CheckTs
+import NitroVerif.Lemmas.IntLit
 namespace NitroVerif.CheckTs
 open NitroVerif.Gql NitroVerif.ValidTs
 
@@ -133,7 +134,7 @@ theorem scalar_ok (n : Name) (v : Value) (hv : ∀ p, v ≠ .null p) (h : scalar
   by_cases h1 : n = "Boolean"
   · subst h1; cases v <;> simp_all
   by_cases h2 : n = "Int"
-  · subst h2; cases v <;> simp_all
+  · subst h2; cases v <;> simp_all [IntLit.intLiteralFitsI32_eq]
   by_cases h3 : n = "Float"
   · subst h3; cases v <;> simp_all
   by_cases h4 : n = "String"
